@@ -121,6 +121,12 @@ W_Exp3 == W_Exp(3)
 W_Exp4 == W_Exp(4)
 \* usable TLV space right above the point where the 3-byte length format starts to pay off, written to capacity
 W_RoomEdge   == ~(pc = "done" /\ op = "write" /\ lay.room \in {LongLen + 2, LongLen + 3} /\ Len(msg) = CodeCap(lay))
+\* the fault / retry dimension and sector selects
+W_SelDone    == ~(pc = "done" /\ op = "write" /\ \E p \in plans : \E i \in DOMAIN p.cmds : p.cmds[i].s = 1 /\ p.cmds[i].ph = 3)
+W_RetryDone  == ~(pc = "done" /\ rd.tries = 1 /\ op = "write" /\ Len(msg) >= LongLen)
+W_RetryCut   == ~(pc = "cut" /\ rd.tries = 1 /\ k > 0)
+W_FaultSel   == ~(pc = "failed" /\ \E p \in plans : p.cmds[k + 1].s = 1)
+W_FaultLen0  == ~(pc = "failed" /\ k = 0 /\ lay.old # Empty /\ op = "write")
 W_FormatWipe == ~(pc = "done" /\ op = "format" /\ msg[1] < 256)
 W_Escape     == Confined
 W_NLayouts   == Cardinality(Layouts) < 0
